@@ -1012,7 +1012,7 @@ func getterLeaves(p *load.Program, r *Roles) map[string]getterLeaf {
 		if fn == nil || len(fn.Params) != 1 {
 			continue
 		}
-		e := eng.New(eng.Config{Prog: p.Prog, Pkg: p.SSA, Fset: p.Fset, Root: fn, MaxDepth: 4, MaxStates: 5000, Classify: r.Classifier(Mode{}), KeepFacts: true})
+		e := eng.New(eng.Config{Prog: p.Prog, Pkg: p.SSA, Fset: p.Fset, Root: fn, MaxDepth: 8, MaxStates: 5000, Classify: r.Classifier(Mode{}), KeepFacts: true})
 		e.Run()
 		recv := eng.Param(0, fn.Params[0].Name())
 		var leaf *eng.Term
